@@ -39,7 +39,8 @@ func vPutKeyExpr(i int, tag string) vPutExpr {
 		t, a := vLit(tag+"k", 0, 1, vLitAlpha)
 		return vPutExpr{t, func(k []byte) ([]byte, bool) { return a, false }}
 	case 1:
-		d := vNondetBytes(tag+"n", 1, 1, "05")
+		// a number literal names the key by its value, however it is spelt (05, 00)
+		d := vNondetBytes(tag+"n", 1, 2, "05")
 		return vPutExpr{string(d), func(k []byte) ([]byte, bool) { return vDecimal(int(vDecimalValue(d))), false }}
 	case 2:
 		t0, a := vLit(tag+"k", 0, 1, vLitAlpha)
